@@ -11,6 +11,9 @@ import (
 
 func (w *World) onJournal(r *JournalRec) {
 	w.journal = append(w.journal, *r)
+	if r.Err == "" && (r.Op == "Set" || r.Op == "SetUint64") {
+		w.or.onStableWrite(r)
+	}
 }
 
 func (w *World) onSnapCreate(inc *Inc, sink *snapSink) { w.or.onSnapCreate(inc, sink) }
